@@ -106,6 +106,7 @@ type Contend struct {
 	Histories   int
 	MaxConc     int
 	Unknown     int
+	external    bool // runs on a database with other keys and an unknown version history: only the tracked keys are judged
 	probs       []EngProblem
 	pmu         sync.Mutex
 	IlSigs      map[string]bool
@@ -127,9 +128,26 @@ type recOp struct {
 }
 
 func NewContend(c *rt.C, o CtdOpt) *Contend {
+	return NewContendOn(c, o, nil, nil)
+}
+
+// NewContendOn runs the contention engine on an existing database (e.g. one produced by
+// LoadFromDisk); st gives the current state of the keys 0..NKeys-1 ("" absent, else the value
+// with the KV comparator or "P").
+func NewContendOn(c *rt.C, o CtdOpt, db *DB, st map[int]string) *Contend {
 	e := &Contend{o: o, c: c, r: c.Rng, st: map[int]string{}, IlSigs: map[string]bool{}}
 	e.sd = c.Rng.Int63()
-	e.db = OpenDB(DBOpt{Mem: o.Mem, KV: o.KV})
+	if db != nil {
+		e.db = db
+		e.external = true
+		e.o.KV = db.KV
+		for k, v := range st {
+			e.st[k] = v
+		}
+	} else {
+		e.db = OpenDB(DBOpt{Mem: o.Mem, KV: o.KV})
+	}
+	o = e.o
 	if o.Perturb > 0 {
 		y := yielder(e.sd, o.Perturb)
 		pt := perturber(e.sd, o.Perturb)
@@ -257,6 +275,7 @@ func (e *Contend) Run() {
 			final[k] = setOut{}
 		}
 		seenKeys := map[string]bool{}
+		others := 0
 		for _, it := range got {
 			ks := e.db.KeyOf(it)
 			if seenKeys[ks] {
@@ -276,7 +295,11 @@ func (e *Contend) Run() {
 				}
 			}
 			if !found {
-				e.problem("C03", "final-unknown-key", "phase %d: snapshot contains a key nobody wrote: %s", ph, fmtItem(it))
+				if e.external {
+					others++
+				} else {
+					e.problem("C03", "final-unknown-key", "phase %d: snapshot contains a key nobody wrote: %s", ph, fmtItem(it))
+				}
 			}
 		}
 		present := 0
@@ -285,11 +308,11 @@ func (e *Contend) Run() {
 				present++
 			}
 		}
-		if s.Count() != int64(present) {
-			e.problem("C03", "count", "phase %d: Count()=%d but the snapshot taken after quiescence contains %d keys", ph, s.Count(), present)
+		if s.Count() != int64(present+others) {
+			e.problem("C03", "count", "phase %d: Count()=%d but the snapshot taken after quiescence contains %d keys", ph, s.Count(), present+others)
 		}
-		if e.db.N.ItemsCount() != int64(present) {
-			e.problem("C03", "items-count", "phase %d: ItemsCount()=%d but %d keys are present after quiescence", ph, e.db.N.ItemsCount(), present)
+		if e.db.N.ItemsCount() != int64(present+others) {
+			e.problem("C03", "items-count", "phase %d: ItemsCount()=%d but %d keys are present after quiescence", ph, e.db.N.ItemsCount(), present+others)
 		}
 		// per-key histories
 		perKey := map[int][]porcupine.Operation{}
@@ -341,7 +364,7 @@ func (e *Contend) Run() {
 			kept[i].Close()
 			kept = append(kept[:i], kept[i+1:]...)
 		}
-		if o.KeepSnaps == 0 && len(e.probs) == 0 {
+		if o.KeepSnaps == 0 && len(e.probs) == 0 && !e.external {
 			e.checkpoint(fmt.Sprintf("after phase %d", ph), present)
 		}
 	}
@@ -358,12 +381,14 @@ func (e *Contend) Run() {
 			present++
 		}
 	}
-	e.checkpoint("final", present)
+	if !e.external {
+		e.checkpoint("final", present)
+	}
 	e.collectAlloc()
 	if len(e.probs) > 0 {
 		return
 	}
-	if e.db.A != nil {
+	if e.db.A != nil && !e.external {
 		w := Walk(e.db.N.VerifStore(), e.db.InsCmp(), nitro.ItemSize, 1<<30)
 		if got, want := e.db.A.LiveCount(), 2*w.Level0Linked+2; got != want {
 			e.problem("C17", "idle-unfreed", "idle database: %d allocator blocks live, structure accounts for %d", got, want)
